@@ -333,8 +333,56 @@ func (c sysCase) runOnce(rs []hx.RuleSpec) (sysx.ClientView, []sysx.Contact, boo
 		w.Configure(rules, c.conf())
 	}
 	w.Perf.Reset(script)
+	if pr, ok := c.primer(); ok {
+		// the router is not fresh: it has just handled a request that differs from this one in the scheme or the host only
+		// (a function of the case, nothing drawn: the case line replays it). Requests are handled independently of each
+		// other - the model knows nothing of the primer (seeded change C01-m7: a match memo keyed without the scheme).
+		w.Do(pr.Raw(), pr.Method == "HEAD")
+		w.Perf.Take()
+		w.Perf.Reset(script)
+	}
 	v := w.Do(c.Req.Raw(), c.Req.Method == "HEAD")
 	return v, w.Perf.Take(), true
+}
+
+// primer: for a third of the cases (no reload in them, no request body) the same request with the forwarded scheme flipped
+// (even case ids) or with another Host (odd ones)
+func (c sysCase) primer() (SysReq, bool) {
+	if c.Sibling != nil || len(c.Req.Body) > 0 || c.Req.Chunked || len(c.Req.Target)%3 != 0 {
+		return SysReq{}, false
+	}
+	pr := c.Req
+	pr.KeepAlive = false
+	pr.Header = nil
+	https := false
+	for _, kv := range c.Req.Header {
+		if strings.EqualFold(kv[0], "X-Forwarded-Proto") {
+			https = https || strings.EqualFold(kv[1], "https")
+			continue
+		}
+		if strings.EqualFold(kv[0], "Connection") {
+			continue
+		}
+		pr.Header = append(pr.Header, kv)
+	}
+	if len(c.Req.Header)%2 == 0 {
+		if !https {
+			pr.Header = append(pr.Header, [2]string{"X-Forwarded-Proto", "https"})
+		}
+	} else {
+		if https {
+			pr.Header = append(pr.Header, [2]string{"X-Forwarded-Proto", "https"})
+		}
+		if strings.HasPrefix(strings.ToLower(pr.Host), "h1") {
+			pr.Host = "h2.test"
+		} else {
+			pr.Host = "h1.test"
+		}
+		if i := strings.Index(pr.Target, "://"); i >= 0 {
+			return SysReq{}, false // absolute-form target names the host itself
+		}
+	}
+	return pr, true
 }
 
 // siblingOf: the same rules with ONE rule's enabled flag flipped, or its host / scheme constraint changed
